@@ -195,6 +195,7 @@ class SimFS:
         self.tmp_names = list(world.get('tmp_names', []))
         self.tmp_count = 0
         self.modes = dict(world.get('modes', {}))   # path -> permission bits (unreadable files etc.)
+        self.uid = world.get('uid', 1000)           # 0: permission bits do not restrict (root / CAP_DAC_OVERRIDE)
         self.fds = {}
         self.resource_mtime = world.get('resource_mtime')
         self.resource_root = os.path.realpath(os.environ.get('VERIF_REPO', '/repo') + '/src')
@@ -350,10 +351,14 @@ class SimFS:
         if not self.inside(n):
             return _real['access'](path, mode, **kw)
         try:
-            self.stat(n)
-            return True
+            st = self.stat(n)
         except OSError:
             return False
+        if self.uid == 0:
+            return True
+        perm = statmod.S_IMODE(st.st_mode)
+        return not ((mode & os.R_OK and not perm & 0o400) or (mode & os.W_OK and not perm & 0o200) or (
+            mode & os.X_OK and not perm & 0o100))
 
     def readlink(self, path, **kw):
         n = self.norm(path)
@@ -588,7 +593,7 @@ class SimFS:
             raise FileExistsError(errno.EEXIST, 'File exists', n)
         if writing and os.path.dirname(r) not in self.dirs:
             raise FileNotFoundError(errno.ENOENT, 'No such file or directory', os.fspath(file))
-        perm = self.modes.get(r, 0o644)
+        perm = self.modes.get(r, 0o644) if self.uid else 0o777
         if exists and 'r' in mode and not (perm & 0o400):
             raise PermissionError(errno.EACCES, 'Permission denied', os.fspath(file))
         if exists and writing and not (perm & 0o200):
@@ -669,7 +674,7 @@ class SimFS:
             self.modes[r] = mode & 0o777 & ~0o022
             self.log('create', r)
         else:
-            perm = self.modes.get(r, 0o644)
+            perm = self.modes.get(r, 0o644) if self.uid else 0o777
             if acc and not (perm & 0o200):
                 raise PermissionError(errno.EACCES, 'Permission denied', n)
             if not acc and not (perm & 0o400):
@@ -944,6 +949,7 @@ def install(world):
     os.getcwd = fs.getcwd
     os.chdir = fs.chdir
     os.access = fs.access
+    os.getuid = os.geteuid = lambda: fs.uid
     os.readlink = fs.readlink
 
     class SimDirEntry:
